@@ -685,6 +685,10 @@ def _run(V, work, tier):
         progs_.append(("opshape", f))
     for f in combinator_programs():
         progs_.append(("combinator", f))
+    # the MIX family: every feature in one program (gen/mix.py)
+    import mix
+    for _ in range(1500 if thorough else 130):
+        progs_.append(("mix", mix.mix_program(rnd, depth=rnd.choice([3, 4, 4, 5]))))
     recs, drv = [], []
     for i, (kind, forms) in enumerate(progs_):
         recs.append(mach.prog_record(i, [forms], {}))
